@@ -20,6 +20,8 @@ import (
 	"go/format"
 	"go/parser"
 	"go/token"
+
+	"golang.org/x/tools/go/ast/astutil"
 )
 
 type delit struct {
@@ -127,42 +129,139 @@ func nResults(fl *ast.FuncLit) int {
 	return len(fl.Type.Results.List)
 }
 
+// lower recognises a rewritable literal call and returns a generator of the statements that replace it: given the
+// expressions that receive its results (nil: results discarded) it yields the literal's body as plain statements.
+// The simple form (one trailing return) becomes `S…; targets = e`. A body with several returns becomes
+//   L: switch { default: S… }   with every `return e` replaced by `{ targets = e; break L }`.
+func (d *delit) lower(e ast.Expr) (*ast.FuncLit, func(targets []ast.Expr) []ast.Stmt, bool) {
+	if fl, body, res, ok := d.iife(e); ok {
+		return fl, func(targets []ast.Expr) []ast.Stmt {
+			out := append([]ast.Stmt{}, body...)
+			if len(res) > 0 {
+				if targets == nil {
+					targets = blanks(nResults(fl))
+				}
+				out = append(out, assign(targets, token.ASSIGN, res))
+			}
+			return out
+		}, true
+	}
+	fl, ok := d.iifeMulti(e)
+	if !ok {
+		return nil, nil, false
+	}
+	return fl, func(targets []ast.Expr) []ast.Stmt {
+		d.n++
+		label := ast.NewIdent(fmt.Sprintf("inlL%d", d.n))
+		body := &ast.BlockStmt{List: fl.Body.List}
+		astutil.Apply(body, func(cur *astutil.Cursor) bool {
+			switch x := cur.Node().(type) {
+			case *ast.FuncLit:
+				return false
+			case *ast.ReturnStmt:
+				var blk []ast.Stmt
+				if len(x.Results) > 0 {
+					t := targets
+					if t == nil {
+						t = blanks(nResults(fl))
+					}
+					blk = append(blk, assign(t, token.ASSIGN, x.Results))
+				}
+				blk = append(blk, &ast.BranchStmt{Tok: token.BREAK, Label: label})
+				cur.Replace(&ast.BlockStmt{List: blk})
+				return false
+			}
+			return true
+		}, nil)
+		sw := &ast.SwitchStmt{Body: &ast.BlockStmt{List: []ast.Stmt{&ast.CaseClause{List: nil, Body: body.List}}}}
+		return []ast.Stmt{&ast.LabeledStmt{Label: label, Stmt: sw}}
+	}, true
+}
+
+// iifeMulti: a parameterless literal called on the spot, without named results, defer or recover, with at least one
+// return (any number, anywhere outside nested literals).
+func (d *delit) iifeMulti(e ast.Expr) (*ast.FuncLit, bool) {
+	call, isCall := e.(*ast.CallExpr)
+	if !isCall || len(call.Args) != 0 {
+		return nil, false
+	}
+	fl, isLit := call.Fun.(*ast.FuncLit)
+	if !isLit {
+		if p, isP := call.Fun.(*ast.ParenExpr); isP {
+			fl, isLit = p.X.(*ast.FuncLit)
+		}
+	}
+	if !isLit || fl.Type.Params != nil && len(fl.Type.Params.List) > 0 || fl.Type.TypeParams != nil {
+		return nil, false
+	}
+	if fl.Type.Results != nil {
+		for _, f := range fl.Type.Results.List {
+			if len(f.Names) > 0 {
+				return nil, false
+			}
+		}
+	}
+	bad, nret := false, 0
+	ast.Inspect(fl.Body, func(n ast.Node) bool {
+		switch x := n.(type) {
+		case *ast.FuncLit:
+			return false
+		case *ast.ReturnStmt:
+			nret++
+		case *ast.DeferStmt:
+			bad = true
+		case *ast.BranchStmt:
+			if x.Tok == token.GOTO {
+				bad = true
+			}
+		case *ast.CallExpr:
+			if id, ok := x.Fun.(*ast.Ident); ok && id.Name == "recover" {
+				bad = true
+			}
+		}
+		return !bad
+	})
+	if bad || nret == 0 {
+		return nil, false
+	}
+	// a literal with results must end in a return (otherwise it would not compile), so falling out of the switch is
+	// impossible for it; a literal without results may fall out — that is the normal end of the block
+	return fl, true
+}
+
 // rewriteStmt returns the replacement statements for s, or nil when s is left alone.
 func (d *delit) rewriteStmt(s ast.Stmt) []ast.Stmt {
 	switch x := s.(type) {
 	case *ast.ExprStmt:
-		if fl, body, res, ok := d.iife(x.X); ok {
+		if _, gen, ok := d.lower(x.X); ok {
 			d.done++
-			out := append([]ast.Stmt{}, body...)
-			if len(res) > 0 {
-				out = append(out, assign(blanks(nResults(fl)), token.ASSIGN, res))
-			}
-			return []ast.Stmt{&ast.BlockStmt{List: out}}
+			return []ast.Stmt{&ast.BlockStmt{List: gen(nil)}}
 		}
 	case *ast.AssignStmt:
 		if len(x.Rhs) == 1 && (x.Tok == token.DEFINE || x.Tok == token.ASSIGN) {
-			if fl, body, res, ok := d.iife(x.Rhs[0]); ok && nResults(fl) == len(x.Lhs) {
+			if fl, gen, ok := d.lower(x.Rhs[0]); ok && nResults(fl) == len(x.Lhs) && nResults(fl) > 0 {
 				d.done++
 				decls, ids := d.declTemps(fl)
-				blk := &ast.BlockStmt{List: append(append([]ast.Stmt{}, body...), assign(ids, token.ASSIGN, res))}
-				out := append(decls, blk)
+				out := append(decls, &ast.BlockStmt{List: gen(ids)})
 				return append(out, assign(x.Lhs, x.Tok, ids))
 			}
 		}
 	case *ast.ReturnStmt:
 		if len(x.Results) == 1 {
-			if _, body, res, ok := d.iife(x.Results[0]); ok {
+			if fl, gen, ok := d.lower(x.Results[0]); ok && nResults(fl) > 0 {
 				d.done++
-				return []ast.Stmt{&ast.BlockStmt{List: append(append([]ast.Stmt{}, body...), &ast.ReturnStmt{Results: res})}}
+				decls, ids := d.declTemps(fl)
+				out := append(decls, &ast.BlockStmt{List: gen(ids)}, &ast.ReturnStmt{Results: ids})
+				return []ast.Stmt{&ast.BlockStmt{List: out}}
 			}
 		}
 	case *ast.IfStmt:
 		// if x := IIFE; cond { … }
 		if as, isAs := x.Init.(*ast.AssignStmt); isAs && len(as.Rhs) == 1 && as.Tok == token.DEFINE {
-			if fl, body, res, ok := d.iife(as.Rhs[0]); ok && nResults(fl) == len(as.Lhs) {
+			if fl, gen, ok := d.lower(as.Rhs[0]); ok && nResults(fl) == len(as.Lhs) && nResults(fl) > 0 {
 				d.done++
 				decls, ids := d.declTemps(fl)
-				blk := &ast.BlockStmt{List: append(append([]ast.Stmt{}, body...), assign(ids, token.ASSIGN, res))}
+				blk := &ast.BlockStmt{List: gen(ids)}
 				as.Rhs = ids
 				out := append(decls, blk, x)
 				return []ast.Stmt{&ast.BlockStmt{List: out}}
@@ -174,10 +273,10 @@ func (d *delit) rewriteStmt(s ast.Stmt) []ast.Stmt {
 			if u, isU := cond.(*ast.UnaryExpr); isU && u.Op == token.NOT {
 				cond, neg = u.X, true
 			}
-			if fl, body, res, ok := d.iife(cond); ok && nResults(fl) == 1 {
+			if fl, gen, ok := d.lower(cond); ok && nResults(fl) == 1 {
 				d.done++
 				decls, ids := d.declTemps(fl)
-				blk := &ast.BlockStmt{List: append(append([]ast.Stmt{}, body...), assign(ids, token.ASSIGN, res))}
+				blk := &ast.BlockStmt{List: gen(ids)}
 				if neg {
 					x.Cond = &ast.UnaryExpr{Op: token.NOT, X: ids[0]}
 				} else {
